@@ -103,6 +103,8 @@ func ghostSort(ty string) (string, error) {
 		return SString, nil
 	case "map[string]int":
 		return ArraySort(SString, SInt), nil
+	case "map[string]real":
+		return ArraySort(SString, SReal), nil
 	case "map[string]bool":
 		return ArraySort(SString, SBool), nil
 	case "map[string]string":
@@ -604,6 +606,14 @@ func fieldIndex(st *types.Struct, name string) int {
 	for i := 0; i < st.NumFields(); i++ {
 		if st.Field(i).Name() == name {
 			return i
+		}
+	}
+	// a field renamed since the contract was written (see resolveRenames)
+	if now, ok := structAlias[st][name]; ok {
+		for i := 0; i < st.NumFields(); i++ {
+			if st.Field(i).Name() == now {
+				return i
+			}
 		}
 	}
 	return -1
